@@ -81,7 +81,7 @@ theorem multistage_clean (cfg : Cfg) (N : Nat) (storage : List Storage) (traj : 
     base := by intro c hc; simp at hc
   }
   obtain ⟨evs, sn', hseg, _, hclean⟩ := segWith_ok false H N false true 0 N 0 [] 0 (some 0) []
-    (by omega) (by omega) (le_refl _) (le_refl _) (le_refl _) (fun _ => ⟨rfl, rfl⟩) (by simp)
+    none none (by simp) (by omega) (by omega) (le_refl _) (le_refl _) (le_refl _) (fun _ => ⟨rfl, rfl⟩) (by simp)
     (by intro c hc; simp at hc) trivial rfl (by intro h; have := hunits (by omega); omega) (fun _ => rfl) (by simp)
   refine ⟨evs, sn', ?_, ?_⟩
   · unfold multistageSeg; rw [hseg]; rfl
